@@ -24,7 +24,7 @@ struct Plan { uint64_t seed = 0; int policy = 0; double switch_prob = 0.3; std::
 
 struct MemModel { std::vector<uint8_t> b; U32 pages = 0; };
 struct TabModel { int slot[8]; };
-struct InstModel { bool up = false; void* inst = nullptr; void* memobj = nullptr; void* tabobj = nullptr; U32 g0 = 0; U64 g1 = 0; U32 started = 0; };
+struct InstModel { bool up = false; int env = 0; void* inst = nullptr; void* memobj = nullptr; void* tabobj = nullptr; U32 g0 = 0; U64 g1 = 0; U32 started = 0; };
 
 static std::map<std::string, const InstExport*> EX;
 static std::vector<InstEnv*> g_envs;
@@ -75,15 +75,28 @@ static void probe_all(const std::string& after) {
     }
 }
 
-static void do_instantiate(int c, int parent) {
-    InstEnv* env = g_envs[(size_t)g_plan->env_of[(size_t)c]];
+static uint64_t g_reinst = 0, g_dirty = 0;
+// mode 0: fresh zeroed struct; 1, 2: struct pre-filled with 0xA5 / 0xFF bytes; 3: FreeInstance and Instantiate again into the same
+// struct, against the resolver objects of environment envsel
+static void do_instantiate(int c, int parent, int mode = 0, int envsel = -1) {
+    if (mode == 3) {
+        InstModel& old = g_inst[(size_t)c];
+        if (!old.up) return;
+        if (!D_MEM_IMPORTED) g_mem.erase(old.memobj);
+        if (!D_TAB_IMPORTED) g_tab.erase(old.tabobj);
+        old.env = envsel % (int)g_envs.size();
+    } else g_inst[(size_t)c].env = g_plan->env_of[(size_t)c];
+    InstEnv* env = g_envs[(size_t)g_inst[(size_t)c].env];
     // a child instance (the way thread-spawn obtains instances) of a module without shared memory is a complete new
     // instance on the parent's resolver objects; with a shared memory the child deliberately shares it, which is not modelled here
     bool child = parent >= 0 && parent != c && g_inst[(size_t)parent].up && !D_SHARED;
-    if (child) env = g_envs[(size_t)g_plan->env_of[(size_t)parent]];
+    if (child) { g_inst[(size_t)c].env = g_inst[(size_t)parent].env; env = g_envs[(size_t)g_inst[(size_t)c].env]; }
     int hooks_before = g_hook_calls;
     sim::sut_enter();
-    void* inst = child ? iglue_new_child(g_inst[(size_t)parent].inst, env) : iglue_instantiate(env);
+    void* inst;
+    if (mode == 3) { inst = g_inst[(size_t)c].inst; iglue_reinstantiate(inst, env); g_reinst++; }
+    else if (child) inst = iglue_new_child(g_inst[(size_t)parent].inst, env);
+    else { inst = iglue_instantiate(env, mode); if (mode) g_dirty++; }
     sim::sut_leave();
     if (child) g_child_instances++;
     InstModel& m = g_inst[(size_t)c];
@@ -122,7 +135,8 @@ static void exec_op(int c, const Op& op) {
 static void exec_op_body(int c, const Op& op) {
     g_ops++;
     InstModel& m = g_inst[(size_t)c];
-    if (op.name == "instantiate") { do_instantiate(c, -1); probe_all("after instantiating instance " + std::to_string(c)); return; }
+    if (op.name == "reinstantiate") { if (m.up) { do_instantiate(c, -1, 3, (int)op.a[0]); probe_all("after freeing instance " + std::to_string(c) + " and instantiating again into the same struct with the resolver objects of environment " + std::to_string(m.env)); } return; }
+    if (op.name == "instantiate") { do_instantiate(c, -1, (int)(op.a[0] % 3)); probe_all("after instantiating instance " + std::to_string(c)); return; }
     if (op.name == "newchild") { do_instantiate(c, (int)op.a[0]); probe_all("after creating instance " + std::to_string(c) + " as a child of instance " + std::to_string(op.a[0])); return; }
     if (!m.up) return;
     MemModel& mm = g_mem[m.memobj];
@@ -166,7 +180,7 @@ static Plan make_plan(uint64_t seed) {
     int nc = 1 + (int)r.below(4); p.tasks.resize((size_t)nc); p.env_of.resize((size_t)nc);
     for (int c = 0; c < nc; c++) {
         p.env_of[(size_t)c] = r.below(2) ? 0 : c;       // share the resolver objects of client 0, or own ones
-        Op i; i.name = "instantiate";
+        Op i; i.name = "instantiate"; i.nargs = 1; i.a[0] = r.below(3);
         if (c > 0 && r.below(3) == 0) { i.name = "newchild"; i.a[0] = r.below((uint32_t)c); i.nargs = 1; }
         p.tasks[(size_t)c].push_back(i);
         int n = 2 + (int)r.below(14);
@@ -176,6 +190,7 @@ static Plan make_plan(uint64_t seed) {
             static const U64 addrs[] = {0, 1, 7, 16, 64, 100, 500, 600, 1000, 4000, 30000, 65535, 65536, 131071};
             o.a[0] = o.name == "set_g0" || o.name == "set_g1" ? r.next() : (r.below(3) ? addrs[r.below(14)] : r.next()); o.a[1] = r.next() & 0xFF; o.a[2] = r.next();
             if (o.name == "minit") o.a[1] = r.next();
+            if (r.below(12) == 0) { o.name = "reinstantiate"; o.nargs = 1; o.a[0] = r.below((uint32_t)nc); }
             p.tasks[(size_t)c].push_back(o);
         }
     }
@@ -186,9 +201,9 @@ static void emit(uint64_t idx, const Plan& p, const Stats& st, const std::vector
     std::string all; for (auto& s : g_sigs) all += (all.empty() ? "" : ";") + s;
     std::string rp = "-";
     if (!g_sigs.empty() && g_write_replays) { char path[512]; snprintf(path, sizeof path, "%s/C06-%016llx.replay", g_replay_dir, (unsigned long long)p.seed); FILE* f = fopen(path, "w"); if (f) { fprintf(f, "# signature %s\n# detail %s\n# variant %s\n%s", all.c_str(), g_detail.c_str(), cfg().c_str(), plan_to_text(p, &trace).c_str()); fclose(f); rp = path; } }
-    printf("R idx=%llu seed=%llu status=%s verdict=%s sig=%s log=%016llx il=%016llx steps=%llu switches=%llu memev=%llu simns=%lld ops=%llu tasks=%zu faults=- probes=probe_all:%llu,child_instances:%llu replay=%s",
+    printf("R idx=%llu seed=%llu status=%s verdict=%s sig=%s log=%016llx il=%016llx steps=%llu switches=%llu memev=%llu simns=%lld ops=%llu tasks=%zu faults=- probes=probe_all:%llu,child_instances:%llu,reinstantiated:%llu,dirty_struct:%llu replay=%s",
            (unsigned long long)idx, (unsigned long long)p.seed, status, g_sigs.empty() ? "pass" : "FAIL", g_sigs.empty() ? "-" : all.c_str(), (unsigned long long)st.log_hash, (unsigned long long)st.il_hash,
-           (unsigned long long)st.steps, (unsigned long long)st.switches, (unsigned long long)st.mem_events, (long long)st.sim_ns, (unsigned long long)g_ops, p.tasks.size(), (unsigned long long)g_probes, (unsigned long long)g_child_instances, rp.c_str());
+           (unsigned long long)st.steps, (unsigned long long)st.switches, (unsigned long long)st.mem_events, (long long)st.sim_ns, (unsigned long long)g_ops, p.tasks.size(), (unsigned long long)g_probes, (unsigned long long)g_child_instances, (unsigned long long)g_reinst, (unsigned long long)g_dirty, rp.c_str());
     if (!g_sigs.empty()) printf(" detail=%s", g_detail.c_str());
     printf("\n");
 }
@@ -196,7 +211,7 @@ static const Plan* g_cur; static uint64_t g_idx;
 static void fatal_handler(int status, const char* detail) { if (status == RS_DEADLOCK) V("C06/liveness/deadlock", detail); emit(g_idx, *g_cur, sim::stats(), sim::decision_trace(), status == RS_DEADLOCK ? "deadlock" : "budget"); fflush(stdout); _exit(status == RS_DEADLOCK ? 91 : 92); }
 
 static void run_plan(uint64_t idx, const Plan& p) {
-    g_plan = &p; g_cur = &p; g_idx = idx; g_sigs.clear(); g_detail.clear(); g_ops = g_probes = g_child_instances = 0;
+    g_plan = &p; g_cur = &p; g_idx = idx; g_sigs.clear(); g_detail.clear(); g_ops = g_probes = g_child_instances = g_reinst = g_dirty = 0;
     g_envs.clear(); g_mem.clear(); g_tab.clear(); g_inst.assign(p.tasks.size(), InstModel());
     for (size_t c = 0; c < p.tasks.size(); c++) {
         InstEnv* e = iglue_env_new(D_MEM_MIN, D_MEM_MAX, D_GOFF, D_GINIT ^ (c * 0x9E3779B97F4A7C15ull));
